@@ -92,6 +92,10 @@ func runC12(outDir string, seed int64, tier string) {
 			closedAt := int64(-1)
 			for _, c := range sc {
 				names = append(names, c12Calls[c])
+				if c == 3 && closedAt < 0 {
+					// the producer is parked on <-more between calls: no goal can be running now
+					closedAt = atomic.LoadInt64(&ticks)
+				}
 				done := make(chan string, 1)
 				go func(c int) {
 					switch c {
@@ -127,10 +131,6 @@ func runC12(outDir string, seed int64, tier string) {
 				select {
 				case r := <-done:
 					results = append(results, r)
-					if c == 3 && closedAt < 0 {
-						time.Sleep(2 * time.Millisecond)
-						closedAt = atomic.LoadInt64(&ticks)
-					}
 				case <-time.After(300 * time.Millisecond):
 					results = append(results, "RBlocked")
 					blocked = true
@@ -163,7 +163,7 @@ func runC12(outDir string, seed int64, tier string) {
 				}
 			}
 			if closedAt >= 0 {
-				time.Sleep(1 * time.Millisecond)
+				time.Sleep(3 * time.Millisecond)
 				if now := atomic.LoadInt64(&ticks); now != closedAt {
 					sum.Failures = append(sum.Failures, failure{ID: id, Class: "solutions:goals-run-after-close", Input: desc,
 						Observed: fmt.Sprintf("%d goal(s) ran after Close returned", now-closedAt), Expected: "none"})
